@@ -17,6 +17,7 @@ Decisions taken from the property text
    reciprocal inverse functions) are listed under `no_verified_reference`; they are never counted as passes.
 """
 import json, time, random
+from fractions import Fraction
 import encl_check as EC
 from encl_check import FUN1, RNDS, mp, mk, tup, dy_of, guarded, is_finite_tuple, libelefun, libmpf
 from encl_ops import acc_decide
@@ -91,7 +92,7 @@ def _case2(g, quick):
         c["rnd"] = r.choice(RNDS) if c["via"] == "raw" else "n"
     elif f == "logb":
         b = r.choice([(2, 0), (10, 0), (3, 0), (g.mant(r.choice([p, 8])), -3), (3, -2), ((1 << 20) + 1, -20)])
-        if b[0] * 2 ** b[1] == 1:
+        if Fraction(b[0]) * Fraction(2) ** b[1] == 1:
             b = (3, 0)
         if r.random() < 0.3:
             k = max(1, r.choice([2, p // 2, p, 2 * p]))
